@@ -35,6 +35,37 @@ def fault_positions(infos, f, kind_wanted, rng):
             return p
 
 
+def apply_forge(ff, infos, fg):
+    """a consistent multi-byte alteration: new contents for level-4 block b of partition pi, with the SHA-256 of the new
+    contents stored where the tree expects it, `depth` levels up (1: level-3 slot; 2: also the level-2 slot of the rewritten
+    level-3 block; 3: also level 1) - everything short of the authenticated master hash.  Returns what was done."""
+    pi, b, depth, fseed = fg
+    info = infos[pi % len(infos)]
+    po = info['part_off']
+    log2 = info['ivfc_log2']
+    frng = Rng(fseed)
+    b4 = 1 << log2[3]
+    D = len(info['data'])
+    b %= info['nb4']
+    new = frng.rbytes(min(b4, D - b * b4))
+    for j, byte in enumerate(new):
+        ff[po + savebuild.lv4_to_partition(info, b * b4 + j)] = byte
+    h = savebuild.sha(new.ljust(b4, b'\0'))
+    idx, hp = 2, b * 0x20
+    for _ in range(depth):
+        for j in range(0x20):
+            ff[po + savebuild.view_to_file(info, info['ivfc_off'][idx] + hp + j)] = h[j]
+        if idx == 0:
+            break
+        bs = 1 << log2[idx]
+        blk = hp // bs
+        n = len(info['levels'][idx])
+        cur = bytes(ff[po + savebuild.view_to_file(info, info['ivfc_off'][idx] + q)] for q in range(blk * bs, min((blk + 1) * bs, n)))
+        h = savebuild.sha(cur.ljust(bs, b'\0'))
+        idx, hp = idx - 1, blk * 0x20
+    return pi % len(infos), b
+
+
 def gen_history(rng, infos, hist):
     ops = []
     for pi, info in enumerate(infos):
@@ -81,14 +112,16 @@ def final_reads(infos):
 
 
 HISTS = ['none', 'first', 'before', 'after', 'all', 'shallow', 'random']
-FAULTS = ['data', 'hash', 'hash', 'bitmap', 'copies', 'table', 'hdrhash', 'magic', 'any', None, None]
+FAULTS = ['data', 'hash', 'hash', 'bitmap', 'copies', 'table', 'hdrhash', 'magic', 'any', 'forge', 'forge', None, None]
 
 
 class C17(Check):
     prop = 'C17'
     rule = ('DISA (1-2 partitions) / DIFF containers from an independent builder: block exponents 4-8 per IVFC level, '
             '2-7 for the DPFS levels, 1-24 level-4 blocks with non-block-multiple sizes, random bitmaps and inactive copies, '
-            'both DIFI selectors, both active tables, internal/external level 4, uninitialised (zero-hash) blocks; read '
+            'both DIFI selectors, both active tables, internal/external level 4, uninitialised (zero-hash) blocks at level 4 and '
+            'zero expected hashes one or two levels higher (half-initialised trees); consistent multi-byte alterations (a level-4 '
+            'block rewritten together with its stored hash, 1-3 levels up, short of the master hash); read '
             'histories {none, first block, block before, block after, all, non-deep get_block calls, random '
             'read/seek/get_block/level-3 reads} followed by a full read; a single-byte fault in data / hash levels / '
             'bitmaps / copies / active table / header hash / magic / anywhere applied before opening; '
@@ -111,10 +144,16 @@ class C17(Check):
         return 1500 if tier == "quick" else 6000
 
     def gen(self, rng, tier, i):
-        geom = sc.gen_geom(rng, tier)
+        geom = sc.gen_geom(rng, tier, upper=True)
         f, infos = sc.build(geom)
         fk = rng.pick(FAULTS)
         fault = None
+        if fk == 'forge':
+            hist = rng.pick(HISTS)
+            ops = gen_history(rng, infos, hist) + final_reads(infos)
+            return {'geom': geom, 'fault': None, 'forge': [rng.randrange(len(infos)), rng.randrange(64), rng.pick([1, 1, 2, 3]),
+                                                            rng.getrandbits(32)],
+                    'fk': fk, 'hist': hist, 'ops': [list(o) for o in ops]}
         if fk:
             fault = [fault_positions(infos, f, fk, rng), rng.pick([1, 0x80, 0xFF, rng.randint(1, 255)])]
         hist = rng.pick(HISTS)
@@ -149,6 +188,8 @@ class C17(Check):
         fault = case.get('fault')
         if fault:
             ff[fault[0]] ^= fault[1]
+        if case.get('forge'):
+            apply_forge(ff, infos, case['forge'])
         ff = bytes(ff)
         ops = [tuple(o) for o in case['ops']]
         real, sess, outs = sc.run_real(geom['kind'], ff, False, ops)
@@ -224,7 +265,9 @@ class C17(Check):
                         mon.append(f'get_block(4, {op[3]}) reported {v} for a block whose chain is intact')
                 if mon:
                     break
-        nontrivial = bool(fault) or case.get('hist') != 'none'
+        if any(p.get('uninit_up') for p in geom['parts']):
+            info_d['tree with a zero hash above level 3'] = 1
+        nontrivial = bool(fault) or bool(case.get('forge')) or case.get('hist') != 'none'
         sig = f'{geom["kind"]}:{case.get("fk")}:{case.get("hist")}' if nontrivial else ''
         return CaseResult(real, model, mon, sig, None, info_d)
 
